@@ -40,6 +40,12 @@ def dataset(name, fam):
         obs = 20 + 1.2 * np.maximum(50 - T, 0) + 6.0 * np.maximum(T - np.sort(T)[-4], 0) + rng.normal(0, 1.0, days)
     elif name == "lateheat":        # mirror image: heating only on the 3 coldest days
         obs = 20 + 6.0 * np.maximum(np.sort(T)[3] - T, 0) + 1.2 * np.maximum(T - 65, 0) + rng.normal(0, 1.0, days)
+    elif name == "summerzero":      # a heating-only gas meter: exactly 0 all summer except five isolated days
+        obs = 1.4 * np.maximum(60 - T, 0)
+        warm = np.nonzero(T > 62)[0]
+        obs[warm] = 0.0
+        obs[warm[[7, 31, 58, 77, 90]]] = [3.0, 1.5, 2.0, 4.0, 2.5]
+        return pd.DataFrame({"temperature": T, "observed": obs}, index=idx), {"is_electricity_data": False}
     elif name == "inverted":        # usage peaks in mild weather and falls towards both temperature extremes: the initial guess finds no
         obs = 45 - 0.5 * np.abs(T - 60) + rng.normal(0, 1.0, days)      # heating or cooling slope at all
     elif name.startswith("flatn"):  # temperature-independent usage; the noise decides the sign of the trend at either end
